@@ -167,7 +167,7 @@ CLAIMS['C10'] = dict(
     text='One connection at a time on the real executor for 8 scripts (forward keep-alive, tunnel, web route, web 404, reverse proxy, '
          'garbage, first / follow-up request rejected by a plugin after the upstream connection exists): every prefix followed by a client- or upstream-side abort (EOF, reset, EPIPE, EIO, timeout), connect failures, and idle '
          'reaping under a jumped clock; afterwards every socket opened for the connection is closed and unused, selector map, works, '
-         'registered_events_by_work_ids and unfinished are empty; selected histories twice on the same executor.',
+         'registered_events_by_work_ids and unfinished are empty; selected histories twice on the same executor. Plus one step of the descriptor bookkeeping (_update_work_events + _cleanup) from a small arbitrary state: two stub works offering solver-chosen descriptors out of {-1, 7, 8}, released in either order - nothing raises, each is shut down once, nothing stays registered.',
     note='Trusted: CrossHair + z3, executor kit. Real descriptors, os.close(work_id) of remote executors and conn-pool mode are outside.',
     ref='DESIGN.md §2 C10')
 CLAIMS['C11'] = dict(
